@@ -70,13 +70,15 @@ func (w *World) NextBlock(ctx sdk.Context, dt time.Duration) (next sdk.Context, 
 			next = cc
 		}
 	}()
-	w.App.EndBlocker(cc, abci.RequestEndBlock{Height: cc.BlockHeight()})
+	eb := w.App.EndBlocker(cc, abci.RequestEndBlock{Height: cc.BlockHeight()})
 	hdr := cc.BlockHeader()
 	hdr.Height++
 	hdr.Time = hdr.Time.Add(dt)
 	cc = cc.WithBlockHeader(hdr)
-	w.App.BeginBlocker(cc, abci.RequestBeginBlock{Header: hdr})
-	return cc, Outcome{Class: OK, Events: cc.EventManager().ABCIEvents()}
+	bb := w.App.BeginBlocker(cc, abci.RequestBeginBlock{Header: hdr})
+	// the module manager runs the blockers on its own event manager and returns the events
+	evs := append(append(cc.EventManager().ABCIEvents(), eb.Events...), bb.Events...)
+	return cc, Outcome{Class: OK, Events: evs}
 }
 
 // ModuleBlock advances block time by dt on a fresh branch and runs f (one module's BeginBlocker).
@@ -294,10 +296,27 @@ func SignTxWith(ctx sdk.Context, w *World, msgs []sdk.Msg, signer string, fee sd
 }
 
 // DeliverMsg signs and delivers one message as a real transaction.
-func (n *Node) DeliverMsg(msg sdk.Msg, signer string, fee sdk.Coins) Outcome {
-	bz, err := n.SignTx(msg, signer, fee)
+func (n *Node) DeliverMsg(msg sdk.Msg, signer string, fee sdk.Coins) (out Outcome) {
+	var bz []byte
+	var err error
+	func() {
+		defer func() {
+			if r := recover(); r != nil {
+				err = fmt.Errorf("cannot build transaction: %v", r)
+			}
+		}()
+		bz, err = n.SignTx(msg, signer, fee)
+	}()
 	if err != nil {
-		return Outcome{Class: Err, Codespace: "harness", Code: 1, Log: err.Error()}
+		// a message that cannot even be put into a transaction (e.g. unparsable signer) never reaches the chain
+		o := Outcome{Class: Err, Codespace: "harness", Code: 1, Log: err.Error()}
+		func() {
+			defer func() { _ = recover() }()
+			if msg.ValidateBasic() != nil {
+				o.Class = Invalid
+			}
+		}()
+		return o
 	}
 	return n.DeliverTxBytes(bz, msg)
 }
